@@ -31,6 +31,7 @@ type runCtx struct {
 	timeoutS int
 	workers  int
 	scratch  string
+	split    bool
 }
 
 func main() {
@@ -46,6 +47,7 @@ func main() {
 	tier := fs.String("tier", "quick", "quick|thorough")
 	fn := fs.String("func", "", "function (dump)")
 	obl := fs.String("obl", "", "obligation glob (dump)")
+	split := fs.Bool("split", false, "dump: split conjunctive goals into separate queries")
 	timeout := fs.Int("timeout", 0, "per-obligation solver timeout in seconds")
 	fs.Parse(os.Args[2:])
 	if t := os.Getenv("VERIF_TIER"); t == "quick" || t == "thorough" {
@@ -87,6 +89,7 @@ func main() {
 	case "check":
 		code = rc.check(*prop, t0)
 	case "dump":
+		rc.split = *split
 		code = rc.dump(*fn, *obl)
 	case "list":
 		for _, n := range w.FuncNamesIn(w.ModPath) {
@@ -120,7 +123,7 @@ func (rc *runCtx) translateAll(only func(short string) bool) ([]*Obligation, []*
 		if spec == nil && !sweep {
 			continue
 		}
-		if spec != nil && spec.Trusted {
+		if spec != nil && spec.Trusted && !sweep {
 			continue
 		}
 		if len(fn.Blocks) == 0 || fn.Synthetic != "" {
@@ -514,6 +517,19 @@ func (rc *runCtx) dump(fnName, oblPat string) int {
 			sel = append(sel, o)
 		}
 	}
+	if rc.split {
+		var sp []*Obligation
+		for _, o := range sel {
+			parts := splitAnd(o.Goal)
+			for i, g := range parts {
+				c := *o
+				c.Goal = g
+				c.Name = fmt.Sprintf("%s{%d}", o.Name, i)
+				sp = append(sp, &c)
+			}
+		}
+		sel = sp
+	}
 	SolveAll(sel, rc.scratch, rc.timeoutS, false, rc.workers)
 	code := 0
 	for i, o := range sel {
@@ -532,3 +548,73 @@ func (rc *runCtx) dump(fnName, oblPat string) int {
 }
 
 var _ = ssa.NaiveForm
+
+// splitAnd splits "(and a b c)" into its top-level conjuncts, recursively through "(=> g (and ...))".
+func splitAnd(g string) []string {
+	g = strings.TrimSpace(g)
+	args := func(s string) []string {
+		var out []string
+		depth := 0
+		start := -1
+		inQ := false
+		for i := 0; i < len(s); i++ {
+			c := s[i]
+			if c == '|' {
+				inQ = !inQ
+				if depth == 0 && inQ && start < 0 {
+					start = i
+				}
+				if depth == 0 && !inQ {
+					out = append(out, s[start:i+1])
+					start = -1
+				}
+				continue
+			}
+			if inQ {
+				continue
+			}
+			switch c {
+			case '(':
+				if depth == 0 {
+					start = i
+				}
+				depth++
+			case ')':
+				depth--
+				if depth == 0 {
+					out = append(out, s[start:i+1])
+					start = -1
+				}
+			case ' ':
+			default:
+				if depth == 0 && start < 0 {
+					j := i
+					for j < len(s) && s[j] != ' ' && s[j] != ')' {
+						j++
+					}
+					out = append(out, s[i:j])
+					i = j - 1
+				}
+			}
+		}
+		return out
+	}
+	if strings.HasPrefix(g, "(and ") {
+		var out []string
+		for _, a := range args(g[5 : len(g)-1]) {
+			out = append(out, splitAnd(a)...)
+		}
+		return out
+	}
+	if strings.HasPrefix(g, "(=> ") {
+		as := args(g[4 : len(g)-1])
+		if len(as) == 2 {
+			var out []string
+			for _, c := range splitAnd(as[1]) {
+				out = append(out, "(=> "+as[0]+" "+c+")")
+			}
+			return out
+		}
+	}
+	return []string{g}
+}
